@@ -46,6 +46,23 @@ let () =
       | ["A"; a; b] -> so (safe_add (z_of_string a) (z_of_string b))
       | ["U"; a; b] -> so (safe_sub (z_of_string a) (z_of_string b))
       | ["X"; n; d; q; r] -> if divmod_def (z_of_string n) (z_of_string d) (z_of_string q) (z_of_string r) then "1" else "0"
+      | "Y" :: rest ->
+        (* Y k:n:d ... | x0 x1 ... : the rewriter's sharing of auxiliary pairs and the value of the rewritten conjunction
+           under the canonical (Euclidean) extension *)
+        let rec split acc = function "|" :: r -> (List.rev acc, r) | x :: r -> split (x :: acc) r | [] -> (List.rev acc, []) in
+        let (apps_s, xs_s) = split [] rest in
+        let rec nat_of_int i = if i <= 0 then O else S (nat_of_int (i - 1)) in
+        let rec int_of_nat = function O -> 0 | S n -> 1 + int_of_nat n in
+        let app s = match String.split_on_char ':' s with
+          | [k; n; d] -> (((if k = "d" then KDiv else KMod), nat_of_int (int_of_string n)), z_of_string d)
+          | _ -> failwith "app" in
+        let apps = List.map app apps_s in
+        let xs = Array.of_list (List.map z_of_string xs_s) in
+        let rho n = let i = int_of_nat n in if i < Array.length xs then xs.(i) else Z0 in
+        let (defs, vs) = rw_apps [] apps in
+        let pat = String.concat " " (List.map (fun (i, k) -> "p" ^ string_of_int (int_of_nat i) ^ (match k with KDiv -> "d" | KMod -> "m")) vs) in
+        let h = if rewritten_holds rho (canon_sigma rho defs) apps then "1" else "0" in
+        pat ^ " ; " ^ string_of_int (List.length defs) ^ " ; " ^ h ^ " " ^ h
       | _ -> "bad" in
     print_endline out
   done with End_of_file -> ()
